@@ -11,7 +11,8 @@ Kinds == {"none", "unknown_mnemonic", "missing_operand", "extra_operand", "undef
           "unknown_directive", "include_missing", "expr_trailing_operator", "expr_unclosed_paren",
           "expr_div_zero", "repeat_unterminated", "endr_without_repeat", "align_too_large", "fill_zero_count",
           "label_is_macro", "bad_register", "set_no_value", "binfile_missing",
-          "macro_too_few_args", "macro_too_many_args", "macro_no_close_paren", "macro_args_missing"}
+          "macro_too_few_args", "macro_too_many_args", "macro_no_close_paren", "macro_args_missing",
+          "duplicate_define", "duplicate_macro", "duplicate_define_macro", "operand_paren_commas"}
 Wraps == {"none", "if1", "ifdef_else", "macro", "repeat", "scope"}
 Pos == {"first", "middle", "last"}
 Init == c \in [base : Bases, kind : Kinds, pos : Pos, wrap : Wraps, type : Types, stale : BOOLEAN]
